@@ -88,33 +88,37 @@ def set_decimal_config() -> None:
     """
     global DECIMAL_WIDTH, DECIMAL_SCALE
     _verif.access("decimal_config", "w", None)
-    DECIMAL_WIDTH = int(os.getenv(DECIMAL_WIDTH_ENV_VAR, DECIMAL_WIDTH))
-    DECIMAL_SCALE = int(os.getenv(DECIMAL_SCALE_ENV_VAR, DECIMAL_SCALE))
+    # Validate into locals first: a rejected value must not stay in the module globals,
+    # and an unset variable means the documented default, not the value of an earlier run.
+    width = int(os.getenv(DECIMAL_WIDTH_ENV_VAR, DEFAULT_DECIMAL_WIDTH))
+    scale = int(os.getenv(DECIMAL_SCALE_ENV_VAR, DEFAULT_DECIMAL_SCALE))
 
-    if DECIMAL_WIDTH == DISABLE_VALUE:
-        DECIMAL_WIDTH = MAX_DECIMAL_WIDTH
-    if DECIMAL_SCALE == DISABLE_VALUE:
-        DECIMAL_SCALE = MAX_DECIMAL_SCALE
+    if width == DISABLE_VALUE:
+        width = MAX_DECIMAL_WIDTH
+    if scale == DISABLE_VALUE:
+        scale = MAX_DECIMAL_SCALE
 
-    if DECIMAL_SCALE < MIN_DECIMAL_SCALE or DECIMAL_SCALE > MAX_DECIMAL_SCALE:
+    if scale < MIN_DECIMAL_SCALE or scale > MAX_DECIMAL_SCALE:
         raise RunTimeError(
             code="0-4-1-1",
             env_var=DECIMAL_SCALE_ENV_VAR,
-            value=DECIMAL_SCALE,
+            value=scale,
             min_value=MIN_DECIMAL_SCALE,
             max_value=MAX_DECIMAL_SCALE,
             disable_value=DISABLE_VALUE,
         )
 
-    if DECIMAL_WIDTH < MIN_DECIMAL_WIDTH or DECIMAL_SCALE > MAX_DECIMAL_WIDTH:
+    if width < MIN_DECIMAL_WIDTH or width > MAX_DECIMAL_WIDTH:
         raise RunTimeError(
             code="0-4-1-1",
             env_var=DECIMAL_WIDTH_ENV_VAR,
-            value=DECIMAL_WIDTH,
+            value=width,
             min_value=MIN_DECIMAL_WIDTH,
             max_value=MAX_DECIMAL_WIDTH,
             disable_value=DISABLE_VALUE,
         )
+
+    DECIMAL_WIDTH, DECIMAL_SCALE = width, scale
 
 
 # =============================================================================
@@ -228,7 +232,11 @@ def create_configured_connection(database: str = ":memory:") -> duckdb.DuckDBPyC
     conn = duckdb.connect(
         database, config={"storage_compatibility_version": STORAGE_COMPATIBILITY_VERSION}
     )
-    configure_duckdb_connection(conn)
+    try:
+        configure_duckdb_connection(conn)
+    except BaseException:
+        conn.close()
+        raise
     return conn
 
 
@@ -238,22 +246,24 @@ def configured_connection(database: str = ":memory:") -> Iterator[duckdb.DuckDBP
     temp_dir = _temp_directory()
     Path(temp_dir).mkdir(parents=True, exist_ok=True)
     session_dir = Path(temp_dir) / f"duckdb_tmp_{uuid.uuid4().hex}"
-    session_dir.mkdir(exist_ok=True)
-    _verif.event("session_dir", str(session_dir), None)
-
-    if database == ":memory:" and not _use_in_memory_db():
-        database = str(session_dir / "session.duckdb")
-
-    _verif.event("connect", database, None)
-    conn = create_configured_connection(database)
-    _verif.event("connected", database, conn)
-    conn.execute(f"SET temp_directory = '{session_dir}'")
+    conn = None
     try:
+        session_dir.mkdir(exist_ok=True)
+        _verif.event("session_dir", str(session_dir), None)
+
+        if database == ":memory:" and not _use_in_memory_db():
+            database = str(session_dir / "session.duckdb")
+
+        _verif.event("connect", database, None)
+        conn = create_configured_connection(database)
+        _verif.event("connected", database, conn)
+        conn.execute(f"SET temp_directory = '{session_dir}'")
         yield conn
     finally:
         try:
-            conn.close()
-            _verif.event("closed", database, None)
+            if conn is not None:
+                conn.close()
+                _verif.event("closed", database, None)
         finally:
             shutil.rmtree(session_dir, ignore_errors=True)
             _verif.event("rmtree", str(session_dir), None)
